@@ -44,6 +44,10 @@ type Step struct {
 	NestT  int `json:"nest_t,omitempty"`
 	// sub: publish an event of type StoreNestT from inside the store's LoadOffset call of this SubscribeWithReplay
 	StoreNestT int `json:"store_nest_t,omitempty"`
+	// StoreNestOp: the store operation of this SubscribeWithReplay call
+	// (1-based, any kind: the load, page reads, saves) inside which that
+	// event is published; 0 or 1 = its first operation (the LoadOffset).
+	StoreNestOp int `json:"store_nest_op,omitempty"`
 	// sub: when SubscribeWithReplay returns an error (an injected store
 	// failure), the application calls it again on the same bus, as it would
 	// after a transient failure
@@ -309,6 +313,7 @@ func (x *exec) run(ri int, r RunSpec, final bool) {
 	}
 	var bus *eventbus.EventBus
 	var curStep *Step
+	subOps := 0 // store operations since the current sub step began
 	x.base.AfterOp = func(op string) {
 		if op == "append" && len(x.curN) > 0 {
 			n := x.curN[len(x.curN)-1]
@@ -331,10 +336,20 @@ func (x *exec) run(ri int, r RunSpec, final bool) {
 			x.anyCrashOrFault = true
 			return storekit.Action{Err: storekit.ErrInjected}
 		}
-		if op == "load" && curStep != nil && curStep.StoreNestT > 0 && bus != nil {
-			t := curStep.StoreNestT
-			curStep.StoreNestT = 0
-			x.publish(bus, t)
+		if curStep != nil && curStep.StoreNestT > 0 && bus != nil {
+			subOps++
+			at := curStep.StoreNestOp
+			if at < 1 {
+				at = 1
+			}
+			if subOps == at {
+				t := curStep.StoreNestT
+				curStep.StoreNestT = 0
+				if op != "load" {
+					x.o.Class("publish_inside_a_later_store_operation_of_SubscribeWithReplay_" + op)
+				}
+				x.publish(bus, t)
+			}
 		}
 		return storekit.Action{}
 	})
@@ -361,6 +376,7 @@ func (x *exec) run(ri int, r RunSpec, final bool) {
 			case "sub":
 				cp := st
 				curStep = &cp
+				subOps = 0
 				err := x.subscribe(ctx, bus, ri, cp)
 				if err != nil && cp.Retry && !x.base.Dead() {
 					x.retried = true
